@@ -24,8 +24,9 @@ CellW == IF Sized THEN {0, 20, 48, -30} ELSE {0}
 \* rh: specified height of the ROW, carried by its first cell (0 auto, n px)
 Cell == [cs : 1..MaxSpan, rs : 0..MaxSpan, words : (IF Sized THEN 0..2 ELSE {1}), w : CellW, rh : (IF Sized THEN {0, 5, 30} ELSE {0})]
 \* tw: table width (0 auto, n px), fixed: table-layout fixed, bs: border-spacing px, collapse, cap: caption (0 none, 1 top, 2 bottom)
-Opts == IF Sized THEN [tw : {0, 60, 200}, fixed : BOOLEAN, bs : {0, 2}, collapse : BOOLEAN, cap : 0..2]
-        ELSE {[tw |-> 0, fixed |-> FALSE, bs |-> 2, collapse |-> FALSE, cap |-> 0]}
+\* rtl: direction: rtl on the table: the columns run from right to left
+Opts == IF Sized THEN [tw : {0, 60, 200}, fixed : BOOLEAN, bs : {0, 2}, collapse : BOOLEAN, cap : 0..2, rtl : BOOLEAN]
+        ELSE {[tw |-> 0, fixed |-> FALSE, bs |-> 2, collapse |-> FALSE, cap |-> 0, rtl |-> FALSE]}
 
 NRows == Len(tab)
 \* the slots of a placed cell
@@ -93,7 +94,12 @@ SumH(s, a, b) == IF a > b THEN 0 ELSE s[a].h + SumH(s, a + 1, b)
 CellSlots(c) == {<<y, x>> : y \in c.r..(c.r + c.rs - 1), x \in c.x..(c.x + c.cs - 1)}
 F(cond, name) == IF cond THEN {name} ELSE {}
 \* the set of clauses of C13 that the laid-out table g violates
-Failures(g) ==
+\* The clauses are stated in inline-start coordinates: the geometry of a right-to-left table is mirrored about the vertical
+\* axis of the table before they are evaluated (column 1 is then the leftmost one).
+Mirror(g) == LET ax == 2 * g.tx + g.tw IN
+  [g EXCEPT !.cells = [j \in 1..Len(g.cells) |-> [g.cells[j] EXCEPT !.px = ax - (g.cells[j].px + g.cells[j].w)]],
+            !.cols = [j \in 1..Len(g.cols) |-> [g.cols[j] EXCEPT !.p = ax - (g.cols[j].p + g.cols[j].w)]]]
+FailuresLtr(g) ==
   LET C == g.cells  n == Len(g.cols)  m == Len(g.rows)  I == 1..Len(C)
       structural ==
              F(\E i \in I : C[i].w < 0 \/ C[i].h < 0, "negative-cell-size")
@@ -118,5 +124,6 @@ Failures(g) ==
         \cup F(\E i, j \in I : i < j /\ CellSlots(C[i]) \cap CellSlots(C[j]) = {} /\
                  C[i].px + 3 < C[j].px + C[j].w /\ C[j].px + 3 < C[i].px + C[i].w /\ C[i].py + 3 < C[j].py + C[j].h /\ C[j].py + 3 < C[i].py + C[i].h,
              "cells-of-disjoint-slots-overlap")
+Failures(g0) == FailuresLtr(IF g0.rtl THEN Mirror(g0) ELSE g0)
 GridConsistent(g) == Failures(g) = {}
 =============================================================================
